@@ -389,12 +389,14 @@ fn run_stop(mode: Mode, scenario: &str, param: u64) -> (String, String, String, 
         std::thread::sleep(Duration::from_millis(5));
     }
     std::thread::sleep(Duration::from_millis(80));
+    // the peers and the signal producer keep going while the listener is awaited: its threads must notice
+    // the stop under steady traffic (signals every 3 ms, messages every 2 ms), not only once things go quiet
+    let was_running = handler.is_running();
+    let returned = finish(running, Duration::from_millis(1500));
     traffic_stop.store(true, Ordering::Relaxed);
     for h in hs {
         let _ = h.join();
     }
-    let was_running = handler.is_running();
-    let returned = finish(running, Duration::from_millis(1500));
     storm_stop.store(true, Ordering::Relaxed);
     if let Some(h) = storm {
         let _ = h.join();
@@ -489,6 +491,63 @@ fn run_early(mode: Mode, cached_actions: usize, live_actions: usize, delay_ms: u
             format!("FAIL first difference at {:?}: got {:?} expected {:?} (observed {} of {})", first_diff, first_diff.and_then(|i| obs.get(i)), first_diff.and_then(|i| expected.get(i)), obs.len(), expected.len())
         },
         format!("early,{}{}{}", mode.name(), if n_cached >= 3 { ",cached3" } else { "" }, if expected.iter().any(|e| matches!(e, Ev::Disconnected(_))) { ",disconnect" } else { "" }),
+    )
+}
+
+/// a burst before the listener call: one peer writes `n` numbered frames in a single write, so that the
+/// caching thread receives them in a few large poll batches (thousands of events in the cache); then the
+/// listener starts, ten more frames follow and the peer closes.  Every frame must arrive, in order.
+fn run_early_burst(mode: Mode, n: u32) -> (String, String, String, String) {
+    let (handler, listener) = node::split::<u64>();
+    let (_l, addr) = handler.network().listen(Transport::FramedTcp, "127.0.0.1:0").unwrap();
+    let observed: Arc<Mutex<Vec<Ev>>> = Arc::new(Mutex::new(vec![]));
+    let mut peer = TcpStream::connect(addr).unwrap();
+    peer.set_nodelay(true).ok();
+    let local = peer.local_addr().unwrap();
+    let mut wire = vec![];
+    for i in 0..n {
+        wire.extend_from_slice(&framed(&i.to_le_bytes()));
+    }
+    peer.write_all(&wire).unwrap();
+    std::thread::sleep(Duration::from_millis(300));
+    let obs2 = observed.clone();
+    let running = start(mode, &handler, listener, move |e| {
+        if !matches!(e, Ev::Signal(_)) {
+            obs2.lock().unwrap().push(e);
+        }
+    });
+    std::thread::sleep(Duration::from_millis(30));
+    for i in n..n + 10 {
+        let _ = peer.write_all(&framed(&i.to_le_bytes()));
+        std::thread::sleep(Duration::from_millis(2));
+    }
+    drop(peer);
+    let want = n as usize + 12;
+    let deadline = Instant::now() + Duration::from_secs(5);
+    while observed.lock().unwrap().len() < want && Instant::now() < deadline {
+        std::thread::sleep(Duration::from_millis(5));
+    }
+    std::thread::sleep(Duration::from_millis(40));
+    handler.stop();
+    let returned = finish(running, Duration::from_secs(3));
+    let obs = observed.lock().unwrap().clone();
+    let mut expected = vec![Ev::Accepted(local)];
+    for i in 0..n + 10 {
+        expected.push(Ev::Message(local, i.to_le_bytes().to_vec()));
+    }
+    expected.push(Ev::Disconnected(local));
+    let order_ok = obs == expected;
+    let first_diff = obs.iter().zip(expected.iter()).position(|(a, b)| a != b).or(if obs.len() != expected.len() { Some(obs.len().min(expected.len())) } else { None });
+    (
+        format!("node earlyburst {} {}", mode.name(), n),
+        format!("order={} delivered={}", if order_ok { "ok" } else { "broken" }, obs.len()),
+        if order_ok && returned.is_some() {
+            "ok".into()
+        }
+        else {
+            format!("FAIL first difference at {:?}: got {:?} expected {:?} (observed {} of {})", first_diff, first_diff.and_then(|i| obs.get(i)), first_diff.and_then(|i| expected.get(i)), obs.len(), expected.len())
+        },
+        format!("early,burst,cached3,{}", mode.name()),
     )
 }
 
@@ -727,6 +786,10 @@ fn main() {
                 }
             }
             for m in modes {
+                let (c, i, o, t) = run_early_burst(m, 3000);
+                emit(&mut out, &c, &i, &o, &t);
+            }
+            for m in modes {
                 for udp in [true, false] {
                     let (c, i, o, t) = run_early_busy(m, udp);
                     emit(&mut out, &c, &i, &o, &t);
@@ -742,6 +805,7 @@ fn main() {
                     ["node", "serial", m, d] => run_serial(parse_mode(m), d.parse().unwrap_or(0)),
                     ["node", "stop", m, sc, p] => run_stop(parse_mode(m), sc, p.parse().unwrap_or(0)),
                     ["node", "tcp", m, late] => run_tcp_late(parse_mode(m), late.parse().unwrap_or(0)),
+                    ["node", "earlyburst", m, n] => run_early_burst(parse_mode(m), n.parse().unwrap_or(10)),
                     ["node", "earlybusy", m, k] => run_early_busy(parse_mode(m), *k == "u"),
                     ["node", "early", m, c, l] => run_early(parse_mode(m), c.parse().unwrap_or(0), l.parse().unwrap_or(0), 20, &mut rng),
                     _ => (line.clone(), "bad-case".into(), "ok".into(), String::new()),
